@@ -609,7 +609,7 @@ func (w *Wire) sackAccept(s *source) {
 	la := c.LocalAddr().(*net.TCPAddr).AddrPort()
 	fl := &Flow{Local: ra.Addr().Unmap(), Target: la.Addr().Unmap(), RemoteISN: 0x0badc0de, LocalISN: w.script.ISN}
 	w.sackFlow = fl
-	w.log("Accept", "lport", int(ra.Port()), "local", fl.Local.String(), "isn", int64(fl.LocalISN))
+	w.log("Accept", "lport", int(ra.Port()), "local", fl.Local.String(), "isn", pkt.U32(fl.LocalISN))
 	if w.script.NoSynack {
 		return
 	}
@@ -649,6 +649,7 @@ func (w *Wire) Stop() {
 func (w *Wire) HandleSummary() (opened, closedOnce int, bad []string) {
 	w.mu.Lock()
 	defer w.mu.Unlock()
+	bad = []string{}
 	for _, h := range w.handles {
 		opened++
 		if h.closed == 1 {
